@@ -6,6 +6,7 @@ import (
 	"strings"
 
 	"github.com/ah-naf/borno/token"
+	"github.com/ah-naf/borno/vhook"
 )
 
 var HadError bool = false
@@ -24,11 +25,13 @@ func GlobalErrorToken(t token.Token, message string) {
 }
 
 func report(line int, where, message string) {
+	vhook.Diag("static", line, message)
 	fmt.Fprintf(os.Stderr, "[line %d] Error%s: %s\n", line, where, message)
 	HadError = true
 }
 
 func RuntimeError(token token.Token, message string) {
+	vhook.Diag("runtime", token.Line, message)
 	fmt.Fprintf(os.Stderr, "%s\n[line %d]\n", message, token.Line)
 	HadRuntimeError = true
 }
